@@ -10,6 +10,7 @@ import Q1t.Proofs.OpenQasmWitness
 import Q1t.Proofs.OpenQasmWF
 import Q1t.Proofs.OpenQasmEquiv
 import Q1t.Proofs.OpenQasmConstAbs3
+import Q1t.Proofs.OpenQasmText
 /-!
 # C11 — OpenQASM export preserves circuit semantics or fails
 
@@ -28,10 +29,10 @@ It is FALSE on the pinned code (negative witnesses below).  What is proved for A
 of a program is the fold of its statements (`semantics_is_fold`); per gate, the meaning of the exported statements
 (all constant gates exactly; RX RY RZ U1 U2 U3 for all angles).
 
-NOT PROVED (checked on every run by (B) on generated circuits only) — `unproved`:
-  * the whole-circuit equivalence beyond the class of `export_equiv_partial` (unconditional gates from the
-    parametrised library gates, resets, barriers): measurements, conditional gates, `reset_all`, `measure_all`, and
-    constant gates as leaves over an arbitrary amplitude type.
+NOT PROVED: nothing is left in `unproved` — `export_equiv_partial` covers every operation the exporter gets right on
+the pinned code.  What remains an ASSUMPTION (checked on every run by (A) and (B), not proved) is the link between
+the model's structured lines and the TEXT: that Rust prints a parameter as a decimal literal that reads back as the
+same double, and that the text lexes/parses to the lines.
 Every library gate with a translation into `qelib1` has its per-gate obligation proved: the constants exactly
 (`constant_gates_exact`; CT, CTdg in `parametrised_controlled_gates`), all parametrised gates for all angles
 (`parametrised_one_qubit_gates`, `parametrised_controlled_gates`).
@@ -40,8 +41,7 @@ namespace Q1t.Props.C11
 open Q1t Q1t.OpenQasm Q1t.Spec.OQ2
 
 /-- names of what is not proved (see the header) -/
-def unproved : List String :=
-  ["export_equiv (full): measure_all in the Z basis (needs a List.Perm statement between the branch lists)"]
+def unproved : List String := []
 
 variable {P : Type}
 
@@ -319,21 +319,91 @@ and at most 64 classical bits whose operations are `QOp.equivSound libTable okPa
 barriers; Z-basis measurements `measure q -> c` with operands in range (at most 64 classical bits); CONDITIONAL
 sound gates whose control list is a non-empty permutation of the whole classical register, whose target is below
 `2^len` and all of whose leaves translate into a single statement (`QGate.singleStmt`: not Swap, CRX, CRY, CCRX, CCRY,
-CCRZ, CCZ); `reset_all`.  NOT in the proved class: `measure_all` (the Born semantics enumerates its outcomes in a
-different order than the sequential measurement of the exported program: a multiset statement is needed).  Conclusion: running the exported lines (`exportedRun`: `Spec.OQ2`'s branching semantics, parameter
+CCRZ, CCZ); `reset_all`; `measure_all` in the Z basis into DISTINCT classical bits in range, one per qubit.
+This is everything the exporter gets right on the pinned code: what is outside the class is outside because the
+pinned code is wrong there (X/Y-basis measurements, conditional multi-statement gates, empty control lists, over-wide
+targets, reference / CU2 / CV / CVdg / empty-composite leaves, unchecked operand lists) or because the two semantics
+genuinely differ (`measure_all` with a repeated classical bit: the Born reference drops the outcomes in which the two
+qubits writing that bit disagree).  Conclusion: running the exported lines (`exportedRun`: `Spec.OQ2`'s branching semantics, parameter
 values taken from the model) and the Born semantics of the circuit (`Spec.branches`), both keeping zero-weight
-branches (`nzT`), give branch lists that correspond one to one: same register word, states equal up to a factor of
-modulus one (`BrRel`). -/
+branches (`nzT`), give branch lists that correspond one to one up to a PERMUTATION of the list (`PermRel`; the permutation is only
+needed for `measure_all`, whose outcomes the Born semantics enumerates in another order than the sequential
+measurement): same register word, states equal up to a factor of modulus one (`BrRel`). -/
 theorem export_equiv_partial (h : LawfulAmp α P) (hh : Proofs.Unitaries.LawfulHalf α P) (ha : LawfulAngle α P)
     (ha2 : LawfulAngle2 α P) (ha3 : LawfulAngle3 α P) (hpi : LawfulAnglePi α P) (c : QCircuit P) (hq : 0 < c.nq) (hnc : c.nc ≤ 64)
     (hs : ∀ op ∈ c.ops, op.equivSound libTable okParam c.nq c.nc = true) (ls : List (Line P))
     (he : exportCircuit libTable c = .ok ls) :
     ∃ cops, c.ops.mapM QOp.toCOp = some cops ∧ ∃ r1 r2 : List (Branch α),
       exportedRun nzT c.nq c.nc ls = some r1 ∧
-      Spec.branches c.nq nzT cops [(zeroState c.nq, 0)] = some r2 ∧ List.Forall₂ (BrRel P c.nq) r1 r2 :=
+      Spec.branches c.nq nzT cops [(zeroState c.nq, 0)] = some r2 ∧ PermRel P c.nq r1 r2 :=
   export_equiv_of_sound h libTable okParam (leaves_ok h hh ha ha2 ha3 hpi) c hq hnc hs ls he
 
+/-! ### … and about the program with its decimal literals -/
+
+/-- every operation of the class of `export_equiv_partial` is in the class of `export_wellformed_partial` -/
+theorem equivSound_sound (ok : String → Bool) (nq nc : Nat) (op : QOp P)
+    (h : op.equivSound libTable ok nq nc = true) : op.sound libTable nq nc = true := by
+  cases op with
+  | gate g bits =>
+    simp only [QOp.equivSound, QOp.equivSound1, Bool.and_eq_true, beq_iff_eq] at h
+    obtain ⟨hlt, hnd⟩ := (validBits_iff' nq bits).1 h.1.2
+    simp only [QOp.sound, h.1.1.1, h.2, hnd, Bool.and_eq_true, beq_iff_eq, decide_eq_true_eq, List.all_eq_true, true_and, and_true]
+    exact hlt
+  | cond control target g bits =>
+    simp only [QOp.equivSound, QOp.equivSound1, Bool.and_eq_true, beq_iff_eq] at h
+    obtain ⟨hlt, hnd⟩ := (validBits_iff' nq bits).1 h.1.2
+    simp only [QOp.sound, h.1.1.1.1.2, h.2, hnd, Bool.and_eq_true, beq_iff_eq, decide_eq_true_eq, List.all_eq_true, true_and, and_true]
+    exact hlt
+  | measure q c b => simpa [QOp.equivSound, QOp.equivSound1, QOp.sound] using h
+  | measureAll cbits b =>
+    simp only [QOp.equivSound, Bool.and_eq_true, beq_iff_eq, decide_eq_true_eq, List.all_eq_true] at h
+    simp only [QOp.sound, h.1.1.1, h.1.1.2, Bool.and_eq_true, beq_iff_eq, decide_eq_true_eq, List.all_eq_true, true_and, and_true, beq_self_eq_true]
+    exact h.2
+  | reset q => simpa [QOp.equivSound, QOp.equivSound1, QOp.sound] using h
+  | resetAll => rfl
+  | barrier qs => simpa [QOp.equivSound, QOp.equivSound1, QOp.sound] using h
+  | peek q c b => rfl
+  | peekAll cbits b => rfl
+
+/-- `export_equiv_partial` as a statement about the OpenQASM PROGRAM with its decimal literals: under the
+assumption `NumRoundTrip sh (linesVals ls)` about the number printer (`sh v` = optional minus sign and decimal literal
+that Rust's `Display for f64` prints for `v`; the assumption: for every number displayed in the lines, i.e. every
+direct parameter of the circuit, it reads back as `v`), the exported lines of a circuit of the class
+are the program `toProgramV sh ls` of `Spec/OQ2`'s abstract syntax — parameter expressions with those literals —,
+and `Spec.OQ2.run` of that program has the same branches (up to a permutation; register word; state up to a unit
+factor) as the Born semantics of the circuit.
+STILL ONLY CHECKED on generated cases ((A): the text's tokens are the model's tokens; (B): the text lexes and parses):
+that `Spec.OQ2.parse (Spec.OQ2.lex text)` is this program. -/
+theorem export_equiv_program_partial (h : LawfulAmp α P) (hh : Proofs.Unitaries.LawfulHalf α P)
+    (ha : LawfulAngle α P) (ha2 : LawfulAngle2 α P) (ha3 : LawfulAngle3 α P) (hpi : LawfulAnglePi α P)
+    (sh : P → DecLit) (c : QCircuit P) (hq : 0 < c.nq) (hnc : c.nc ≤ 64)
+    (hs : ∀ op ∈ c.ops, op.equivSound libTable okParam c.nq c.nc = true) (ls : List (Line P))
+    (he : exportCircuit libTable c = .ok ls) (hrt : NumRoundTrip P sh (linesVals ls)) :
+    ∃ p cops, toProgramV sh ls = some p ∧ c.ops.mapM QOp.toCOp = some cops ∧ ∃ r1 r2 : List (Branch α),
+      run (α := α) (P := P) nzT p = some r1 ∧
+      Spec.branches c.nq nzT cops [(zeroState c.nq, 0)] = some r2 ∧ PermRel P c.nq r1 r2 := by
+  have hsound : c.sound libTable = true := by
+    simp only [QCircuit.sound, Bool.and_eq_true, decide_eq_true_eq, List.all_eq_true]
+    exact ⟨hq, fun op hop => equivSound_sound okParam c.nq c.nc op (hs op hop)⟩
+  obtain ⟨p, hp, hrun⟩ := program_runs_as_lines (α := α) sh libTable c hsound ls he hrt nzT
+  obtain ⟨cops, hcops, r1, r2, hr1, hr2, hrel⟩ := export_equiv_partial h hh ha ha2 ha3 hpi c hq hnc hs ls he
+  exact ⟨p, cops, hp, hcops, r1, r2, by rw [hrun]; exact hr1, hr2, hrel⟩
+
 end equiv
+
+/-- `NumRoundTrip` is satisfiable: the real `1/2` printed as `0.5` (`5 · 10⁻¹`), `-1/4` as `-0.25` -/
+example : NumRoundTrip ℝ (fun v => if v < 0 then ⟨true, 25, -2⟩ else ⟨false, 5, -1⟩) [(1 / 2 : ℝ), -(1 / 4 : ℝ)] := by
+  intro v hv
+  simp only [List.mem_cons, List.not_mem_nil, or_false] at hv
+  rcases hv with rfl | rfl
+  · show DecLit.value (P := ℝ) (if (1 / 2 : ℝ) < 0 then _ else _) = _
+    rw [if_neg (by norm_num)]
+    show ((5 : ℕ) : ℝ) * (10 : ℝ) ^ (-1 : ℤ) = 1 / 2
+    norm_num
+  · show DecLit.value (P := ℝ) (if (-(1 / 4) : ℝ) < 0 then _ else _) = _
+    rw [if_pos (by norm_num)]
+    show -(((25 : ℕ) : ℝ) * (10 : ℝ) ^ (-2 : ℤ)) = -(1 / 4)
+    norm_num
 
 /-- the hypotheses are satisfiable: the theorem at complex amplitudes and real angles -/
 example (c : QCircuit ℝ) (hq : 0 < c.nq) (hnc : c.nc ≤ 64)
@@ -341,7 +411,7 @@ example (c : QCircuit ℝ) (hq : 0 < c.nq) (hnc : c.nc ≤ 64)
     (ls : List (Line ℝ)) (he : exportCircuit libTable c = .ok ls) :
     ∃ cops, c.ops.mapM QOp.toCOp = some cops ∧ ∃ r1 r2 : List (Branch ℂ),
       exportedRun nzT c.nq c.nc ls = some r1 ∧
-      Spec.branches c.nq nzT cops [(zeroState c.nq, 0)] = some r2 ∧ List.Forall₂ (BrRel ℝ c.nq) r1 r2 :=
+      Spec.branches c.nq nzT cops [(zeroState c.nq, 0)] = some r2 ∧ PermRel ℝ c.nq r1 r2 :=
   export_equiv_partial AmpComplex.lawful AmpComplex.lawfulHalf lawfulAngleComplex lawfulAngle2Complex
     lawfulAngle3Complex lawfulAnglePiComplex c hq hnc hs ls he
 
@@ -351,8 +421,8 @@ example : ∀ op ∈ ([.gate (.kron (.lib "RX" [.direct 1]) (.lib "CRY" [.direct
       .gate (.lib "H" []) [1], .gate (.lib "CCX" []) [2, 0, 1], .gate (.lib "CH" []) [1, 2],
       .gate (.loop "l" 2 "c" 3 (.cons (.lib "CCRX" [.direct 3]) [1, 0, 2]
         (.cons (.lib "CU3" [.direct 1, .direct 2, .direct 3]) [2, 0] .nil))) [0, 2, 1],
-      .reset 1, .resetAll, .measure 2 1 .Z, .cond [1, 0] 2 (.kron (.lib "CU3" [.direct 1, .direct 2, .direct 3]) (.lib "T" [])) [2, 0, 1],
-      .barrier [0, 2]] : List (QOp ℝ)), op.equivSound libTable okParam 3 2 = true := by decide
+      .reset 1, .resetAll, .measure 2 1 .Z, .measureAll [1, 0, 2] .Z, .cond [1, 2, 0] 5 (.kron (.lib "CU3" [.direct 1, .direct 2, .direct 3]) (.lib "T" [])) [2, 0, 1],
+      .barrier [0, 2]] : List (QOp ℝ)), op.equivSound libTable okParam 3 3 = true := by decide
 
 /-! ## Negative witnesses (the pinned code violates the property) and agreement (non-vacuity) -/
 
